@@ -128,6 +128,13 @@ def gen_dp(rng, n, tier):
             cands += [max(xs) - min(xs), max(ys) - min(ys), math.hypot(max(xs) - min(xs), max(ys) - min(ys))]
             c = rng.choice([v for v in cands if v > 0] or [sc])
             eps = c * rng.choice([0.9, 0.99, 1.01, 1.1, 1.2, 1.35])
+        if rng.random() < 0.05:
+            # a tolerance below the rounding of the distances (1e-16 of the extent and less) on a track with repeated fixes and exactly collinear runs:
+            # the recursion must still end, on pieces whose interior fixes are all at distance (about) zero
+            a = [rng.randint(-5, 5) * sc, rng.randint(-5, 5) * sc]; b = [a[0] + rng.choice([3, 7, -2, 5]) * sc, a[1] + rng.choice([1, 3, -1, 2]) * sc]
+            pts = rng.choice([[a, a, b], [a, b, b], [a, a, b, b], [a, [(a[0] + b[0]) / 2, (a[1] + b[1]) / 2], b], [a, a, b, a, a], [b, a, a, b]])
+            pts = [list(p) for p in pts]
+            eps = rng.choice([1e-16, 3e-17, 1e-18, 1e-300]) * sc
         if rng.random() < 0.06:
             # projected coordinates (a large common offset, as eastings / northings), fixes every few decimetres wobbling by millimetres, a millimetre tolerance:
             # distances are differences of nearby large numbers
